@@ -1,7 +1,7 @@
 """Property id -> check function(prop, tier, seed) -> exit status."""
 import json
 
-from . import checks_sampler, checks_ckpt
+from . import checks_sampler, checks_ckpt, checks_bounds
 
 CHECKS = {
     'C01': checks_sampler.check,
@@ -11,6 +11,9 @@ CHECKS = {
     'C12': checks_sampler.check,
     'C05': checks_ckpt.check_c05,
     'C06': checks_ckpt.check_c06,
+    'C07': checks_bounds.check_c07,
+    'C09': checks_bounds.check_c09,
+    'C13': checks_bounds.check_c13,
 }
 
 
